@@ -93,6 +93,13 @@ theorem tie_server : subseq ["defer:acceptTomb.Done", "go:proxy.freeBlocker", "l
       "call:Toxics.StartLink", "call:Toxics.StartLink"]
     (seqOf "proxy.go:Proxy.server") = true := by decide
 
+/-- `server` binds first and tells the caller (both branches of `listen` send on `started`); only
+after a successful bind does it register with its tomb, start `freeBlocker` and loop. -/
+theorem tie_server_start :
+    subseq ["call:proxy.listen", "return", "defer:acceptTomb.Done", "go:proxy.freeBlocker", "loop", "call:listener.Accept"] (seqOf "proxy.go:Proxy.server") = true ∧
+    ((seqOf "proxy.go:Proxy.server").take 2 = ["call:proxy.listen", "return"]) ∧
+    subseq ["call:net.Listen", "send:proxy.started", "return", "send:proxy.started", "return"] (seqOf "proxy.go:Proxy.listen") = true := by decide
+
 theorem tie_start : subseq ["set:proxy.tomb", "go:proxy.server", "recv:proxy.started", "set:proxy.Enabled"] (seqOf "proxy.go:start") = true := by decide
 
 theorem tie_update : subseq ["call:proxy.Lock", "call:proxy.Differs", "call:stop", "set:proxy.Listen", "set:proxy.Upstream", "call:start", "call:stop"]
@@ -178,5 +185,23 @@ theorem tie_cli :
     callsOf "cmd/cli/cli.go:parseUpdateToxicParams" = ["parseToxicity:-1"] ∧
     callsOf "cmd/cli/cli.go:parseAddToxicParams" = ["parseToxicity:1.0"] := by
   decide
+
+
+/-! ### Lock order (C16) -/
+
+/-- The order in which the mutexes of package toxiproxy may be nested; `acceptloop` is the accept
+loop itself, which `stop()` joins (`proxy.tomb.Wait()`) while holding the proxy's mutex.  A class
+this table does not know has rank 0 and fails the tie. -/
+def lockRank : String → Nat
+  | "ProxyCollection" => 1
+  | "Proxy" => 2
+  | "acceptloop" => 3
+  | "ToxicCollection" => 4
+  | "ConnectionList" => 4
+  | _ => 0
+
+/-- Every nesting that occurs in the source climbs in that order (in particular no toxic operation
+takes a proxy's mutex, and nothing takes the collection lock while holding another lock). -/
+theorem tie_lock_order : lockOrder.all (fun e => 0 < lockRank e.1 && lockRank e.1 < lockRank e.2.1) = true := by decide
 
 end Toxi.Ties
